@@ -1,3 +1,5 @@
+//go:build !passthrough
+
 package simrt
 
 import (
